@@ -89,23 +89,15 @@ func goInt(b *big.Int) any {
 	return new(big.Int).Set(b)
 }
 
-// goJSON turns a parsed JV (ints as *big.Int) into the Go value given to fq
+// goJSON turns a parsed JV (ints as *big.Int) into the Go value given to fq: the Go type of a
+// top-level integer varies (makeDecodeValueOut accepts int, int64, uint64, *big.Int); inside
+// containers only gojq's own value types are allowed (int if it fits, else *big.Int)
 func goJSON(v any) any {
 	switch v := v.(type) {
 	case *big.Int:
 		return goInt(v)
-	case []any:
-		o := make([]any, len(v))
-		for i, e := range v {
-			o[i] = goJSON(e)
-		}
-		return o
-	case map[string]any:
-		o := make(map[string]any, len(v))
-		for k, e := range v {
-			o[k] = goJSON(e)
-		}
-		return o
+	case []any, map[string]any:
+		return goJSONNorm(v)
 	}
 	return v
 }
@@ -640,7 +632,10 @@ func scalarCatalogue() []*Node {
 	// scalar.Any: null and JSON values
 	for _, j := range []any{nil, true, 3, int64(-4), uint64(1 << 63), bigOf("18446744073709551617"), 2.5, "s", "",
 		[]any{}, []any{1, "a", nil, []any{2.5}}, map[string]any{}, map[string]any{"k": 1},
-		map[string]any{"k": []any{map[string]any{"z": nil}}}} {
+		map[string]any{"k": []any{map[string]any{"z": nil}}},
+		// several keys: Go map iteration order is random, jq lists and visits them sorted
+		map[string]any{"e": 1, "d": 2, "c": 3, "b": 4, "a": 5, "f": 6},
+		map[string]any{"k9": 1, "k8": "x", "k7": nil, "k6": []any{1}, "k5": 2.5, "k4": true, "k3": 3, "k2": 2, "k1": 1, "k0": map[string]any{"y": 1, "x": 2, "w": 3}}} {
 		ns = append(ns, &Node{Kind: 'j', J: j, Synth: true})
 	}
 	return ns
@@ -649,7 +644,7 @@ func scalarCatalogue() []*Node {
 // symbols of each JSON type (and the falsy ones: false, 0, "")
 func symCatalogue() []any {
 	return []any{true, false, 0, int64(-1), uint64(7), bigOf("18446744073709551617"), 1.5, math.Copysign(0, -1), "", "sym", "42",
-		[]any{}, []any{1, "x"}, map[string]any{}, map[string]any{"a": 1}}
+		[]any{}, []any{1, "x"}, map[string]any{}, map[string]any{"a": 1}, map[string]any{"q": 1, "p": 2, "o": 3, "n": 4, "m": 5}}
 }
 
 // one representative of each scalar kind
